@@ -346,7 +346,7 @@ def rename(args: Namespace) -> str:
     name = meta["info"]["name"]
     parent = os.path.dirname(target)
     new_path = os.path.join(parent, name + ".torrent")
-    if os.path.exists(new_path):
+    if os.path.lexists(new_path):
         raise FileExistsError  # pragma: nocover
     os.rename(target, new_path)
     return new_path
